@@ -28,8 +28,9 @@ def run_demo(d, tree, work):
             if extra.name not in ("patch.diff", "meta.json", "demo.sh"):
                 if extra.is_file():
                     shutil.copy(extra, work / extra.name)
-        return sh(["timeout", "900", "sh", "demo.sh", str(tree)], cwd=work)
+        return sh(["timeout", "900", "bash", "demo.sh", str(tree)], cwd=work)
     src = (d / "demo.cpp").read_text()
+    src = re.sub(r"\\\n\s*(?://|\*)?\s*", " ", src)     # join continued comment lines
     for extra in d.iterdir():
         if extra.is_file() and extra.name not in ("patch.diff", "meta.json"):
             shutil.copy(extra, work / extra.name)
